@@ -68,6 +68,14 @@ class C05(Prop):
             sp = [Fraction(rng.randint(1, 3))] + [rng.choice(slow + [Fraction(1), Fraction(2)]) for _ in range(n - 1)]
             rng.shuffle(sp)
             yield dict(entry="SimultaneousEating.bistochastic", family="speed_ratio", P=P, speeds=[str(x) for x in sp], ps=False)
+        # another clock: the same relative speeds measured in a much faster or much slower unit (exact powers of two, so nothing is rounded);
+        # the eating outcome does not depend on the unit
+        for i in range(36 if tier == "quick" else 600):
+            n = rng.randint(1, 5)
+            P = [rng.sample(range(1, n + 1), n) for _ in range(n)]
+            e = [53, 70, 200, 1000, -30, -60, -300, -1000, 1020, -1020][i % 10]
+            sp = [Fraction(rng.randint(1, 3)) * Fraction(2) ** e for _ in range(n)]
+            yield dict(entry="SimultaneousEating.bistochastic", family="clock_unit", P=P, speeds=[str(x) for x in sp], ps=False, dtype=["int64", "float"][i % 2])
         # halving chain: events at 1/2, 3/4, 7/8, ..., 1 - 2^-(n-1): agents that are ALMOST full when an event happens
         for n in ([12, 18, 20] if tier == "quick" else [10, 12, 14, 16, 18, 19, 20, 21, 22]):
             rows = [list(range(n)), [0, n - 1] + list(range(1, n - 1))] + [[i - 1] + [j for j in range(n) if j != i - 1] for i in range(2, n)]
